@@ -42,6 +42,7 @@ struct Reference
   SpaceRN space;
   std::vector<SpacePoint> pts;
   std::vector<bool> coordOk;
+  double meanScale = 1.;       // factor on the known means (value scale of the case)
 
   Reference(const KData& d_, Model* m, int kdrift_) : d(d_), model(m), kdrift(kdrift_), space(d_.ndim)
   {
@@ -174,11 +175,11 @@ struct Reference
     R.rhs = b;
     R.defined = true;
     // estimate
-    LD m0 = drift_known_mean(kdrift) ? known_mean(kdrift, v0) : 0.;
+    LD m0 = drift_known_mean(kdrift) ? meanScale * known_mean(kdrift, v0) : 0.;
     R.estim = m0; R.scaleEst = fabsl(m0);
     for (int a = 0; a < S.nr; a++)
     {
-      LD m = drift_known_mean(kdrift) ? known_mean(kdrift, S.rv[a]) : 0.;
+      LD m = drift_known_mean(kdrift) ? meanScale * known_mean(kdrift, S.rv[a]) : 0.;
       LD zz = d.z[S.rv[a]][S.rs[a]];
       R.estim += R.lambda[a] * (zz - m);
       R.scaleEst += fabsl(R.lambda[a]) * (fabsl(zz) + fabsl(m));
